@@ -146,7 +146,7 @@ func permutations(n int) [][]int {
 }
 
 var conflictKinds = []string{"dup_object", "dup_interface", "dup_union", "dup_enum", "dup_input", "overlap_boundary_field", "overlap_namespace_field",
-	"kind_collision", "boundary_vs_plain", "namespace_vs_boundary"}
+	"kind_collision", "kind_collision_scalar", "boundary_vs_plain", "namespace_vs_boundary"}
 
 // injectConflict appends one conflicting definition to two service SDLs. Returns false if the kind does not apply.
 func injectConflict(r *rand.Rand, fed *federation, kind string) bool {
@@ -192,6 +192,12 @@ func injectConflict(r *rand.Rand, fed *federation, kind string) bool {
 	case "kind_collision":
 		addTo(a, "type Coll { x: String }")
 		addTo(b, "enum Coll { P Q }")
+	case "kind_collision_scalar":
+		// a custom scalar against any other kind, either side first
+		other := []string{"type Coll2 { x: String }", "interface Coll2 { x: String }", "enum Coll2 { P Q }", "input Coll2 { x: String }",
+			"type Coll2M { x: String }\nunion Coll2 = Coll2M"}[r.Intn(5)]
+		addTo(a, other)
+		addTo(b, "scalar Coll2")
 	case "overlap_boundary_field":
 		for bt := range fed.Boundary {
 			if _, ok := a.Lookups[bt]; ok {
@@ -209,9 +215,15 @@ func injectConflict(r *rand.Rand, fed *federation, kind string) bool {
 		}
 		return false
 	case "boundary_vs_plain":
+		if a.Schema != nil && a.Schema.Query != nil && a.Schema.Query.Fields.ForName("node") != nil {
+			return false // a schema that uses @boundary may not use the name node for anything but the former lookup
+		}
 		addTo(a, "type Mixed @boundary { id: ID! x: String }\nextend type Query { _mixed(id: ID!): Mixed @boundary }")
 		addTo(b, "type Mixed { id: ID! y: String }")
 	case "namespace_vs_boundary":
+		if a.Schema != nil && a.Schema.Query != nil && a.Schema.Query.Fields.ForName("node") != nil {
+			return false
+		}
 		addTo(a, "type Mixed2 @boundary { id: ID! x: String }\nextend type Query { _mixed2(id: ID!): Mixed2 @boundary }")
 		addTo(b, "type Mixed2 @namespace { y: String }\nextend type Query { mixed2: Mixed2! }")
 	}
